@@ -473,9 +473,7 @@ class AddonManager:
                                 command.options,
                                 command.param,
                             )
-                        if handled:
-                            region.circuit.drop_message(message)
-                        else:
+                        if not handled:
                             all_cmds_handled = False
                     except:
                         LOG.exception(f"Failed while handling command {command!r}")
@@ -484,6 +482,8 @@ class AddonManager:
                             raise
                 # Drop the chat message if all commands it contained were handled by an addon
                 if all_cmds_handled:
+                    if not message.finalized:
+                        region.circuit.drop_message(message)
                     return True
 
         with addon_ctx.push(session, region):
